@@ -130,7 +130,7 @@ func alphabet(s *Sim, st *list.AclState, abs Abs, full bool) (out []crafted) {
 	for _, au := range accs {
 		a := au.Name
 		for _, t := range accs {
-			for _, p := range AllPerms {
+			for _, p := range permLevels {
 				add(meta{Kind: "PermissionChange", Author: a, Target: t.Name, Perm: PermName(p), perm: p}, CPermissionChange(t, p))
 				add(meta{Kind: "AccountsAdd", Author: a, Target: t.Name, Perm: PermName(p), perm: p}, CAccountsAdd(p, t))
 				add(meta{Kind: "OwnershipChange", Author: a, Target: t.Name, Perm: PermName(p), perm: p}, COwnershipChange(t, p))
@@ -161,13 +161,13 @@ func alphabet(s *Sim, st *list.AclState, abs Abs, full bool) (out []crafted) {
 				&aclrecordproto.AclAccountPermissionChange{Identity: s.Acc("W").Proto, Permissions: Admin}))
 		}
 		for ti, typ := range []aclrecordproto.AclInviteType{aclrecordproto.AclInviteType_RequestToJoin, aclrecordproto.AclInviteType_AnyoneCanJoin} {
-			for _, p := range AllPerms {
+			for _, p := range permLevels {
 				k := inviteKey(s.Seed, len(s.Log)*100+ti*10+int(p))
 				add(meta{Kind: "Invite", Author: a, Variant: fmt.Sprintf("type=%d", typ), Perm: PermName(p), perm: p}, CInvite(k.GetPublic(), typ, p))
 			}
 		}
 		for _, iv := range invAll {
-			for _, p := range AllPerms {
+			for _, p := range permLevels {
 				add(meta{Kind: "InviteChange", Author: a, Invite: iv.desc, Perm: PermName(p), inviteId: iv.id, perm: p}, CInviteChange(iv.id, p))
 				add(meta{Kind: "InviteJoin", Author: a, Invite: iv.desc, Perm: PermName(p), inviteId: iv.id, perm: p}, CInviteJoin(iv.id, au, s.InviteKeys[iv.id], p))
 			}
@@ -184,7 +184,7 @@ func alphabet(s *Sim, st *list.AclState, abs Abs, full bool) (out []crafted) {
 		}
 		for _, rq := range reqAll {
 			who := requester(rq.id)
-			for _, p := range AllPerms {
+			for _, p := range permLevels {
 				if who != nil {
 					add(meta{Kind: "RequestAccept", Author: a, Request: rq.desc, Target: who.Name, Perm: PermName(p), perm: p}, CRequestAccept(rq.id, who, p))
 				}
@@ -270,6 +270,12 @@ func representatives(s *Sim, st *list.AclState, abs Abs, au *Account) (out []cra
 type finding struct{ key, what string }
 
 func isManager(p Perm) bool { return p == Owner || p == Admin }
+
+// permLevels: the six defined levels and two the protocol does not define (the field is a plain varint on the wire, a
+// hand-made record can carry any value): an account or invite that ends up with such a level is a member without any
+// of the listed powers.
+var permLevels = append(append([]Perm{}, AllPerms...), Perm(-1), Perm(6))
+
 
 func permRank(p Perm) int {
 	switch p {
@@ -513,7 +519,7 @@ func TestCheck(t *testing.T) {
 		Prop:  "C04",
 		Level: "model_checking",
 		Rule: "explicit-state BFS over ACL states of the real validating list: 5 scripted seed states (root; members of every role; + live invites of both types and a revoked one; + an owner-made Admin invite; + pending join / admin-leave / writer-leave requests) and everything reachable from them by accepted crafted records up to the depth bound; " +
-			"from every state the full hand-signed record alphabet (16 content kinds x 8 authors x targets x 6 permission levels x invite ids x request ids, incl. unknown / cross-kind ids and wrong recipient sets) is offered to ValidateRawRecord; " +
+			"from every state the full hand-signed record alphabet (16 content kinds x 8 authors x targets x 8 permission levels (the 6 defined ones, -1 and 6) x invite ids x request ids, incl. unknown / cross-kind ids and wrong recipient sets) is offered to ValidateRawRecord; " +
 			"states = distinct abstract states (role-relative, ids dropped); transitions = crafted records evaluated; distinct_nontrivial = distinct (state, accepted record class) pairs",
 		Assumptions: []string{
 			"8 accounts (owner, 2 admins, writer, reader, guest, removed member, outsider); the validating list is observed by a non-member identity so that key material in crafted records may be placeholders",
